@@ -1,7 +1,5 @@
 // ---- prelude/pagenode_spec.rs: the view of a resolved node, whichever representation it has ----
-spec fn nd_len(d: NodeData) -> nat {
-    match d { NodeData::Branches(b) => b@.len(), NodeData::Leaves(l) => l@.len() }
-}
+//@include prelude/nd_len.rs
 spec fn pn_is_tree_node(pn: PageNode) -> bool {
     match pn { PageNode::Page(p) => p.page_type == 1 || p.page_type == 2, PageNode::Node(_) => true }
 }
